@@ -51,9 +51,6 @@ inductive Schema where
   | oneOf (ss : List Schema)
   /-- typedpy's dialect: `not: [a, b, …]` -/
   | notS (ss : List Schema)
-  /-- `s` with its `type` overwritten by `"object"`: only ever *produced* by
-      `StructureReferenceMapper.to_schema` on a collapsed single-field structure -/
-  | retyped (s : Schema)
   /-- the mapping raises (`NotImplementedError` / `TypeError`) -/
   | unsupported (why : String)
 deriving Repr, Inhabited
@@ -108,7 +105,6 @@ def schemaToDecl (ρ : String → FieldDecl) : Schema → FieldDecl
   | .anyOf ss => .anyOf (schemaToDeclL ρ ss)
   | .oneOf ss => .oneOf (schemaToDeclL ρ ss)
   | .notS ss => .notF (schemaToDeclL ρ ss)
-  | .retyped _ => .anything
   | .unsupported _ => .anything
 termination_by structural s => s
 def schemaToDeclL (ρ : String → FieldDecl) : List Schema → List FieldDecl
@@ -168,14 +164,16 @@ def collapses (required names : List String) (addl : Bool) : Bool :=
 def schemaRequired (required defaultNames : List String) : List String :=
   required ++ defaultNames.filter (fun n => !required.contains n)
 
-/-- `structure_to_schema` on a class given the schemas of its fields.  A class with exactly one
-    field, all required, without additional properties is replaced by the schema of that field;
-    for an inline `StructureReference` the result's `type` is then overwritten by `"object"`. -/
-def structShape (inline : Bool) (c : ClassOpts) (fields : List (String × Schema))
+/-- `structure_to_schema` on a class given the schemas of its fields.  With `allow_field_wrapper`
+    (top-level call only) a class with exactly one field, all required, without additional
+    properties is replaced by the schema of that field; `_map_class_reference` and
+    `StructureReferenceMapper.to_schema` pass `allow_field_wrapper=False`, so nested classes and
+    definitions are always object schemas. -/
+def structShape (wrapper : Bool) (c : ClassOpts) (fields : List (String × Schema))
     (defaults : List (String × PyVal)) : Schema :=
-  if collapses c.required (fields.map (·.1)) c.addl then
+  if wrapper && collapses c.required (fields.map (·.1)) c.addl then
     (match fields with
-     | [(_, s)] => if inline then .retyped s else s
+     | [(_, s)] => s
      | _ => .unsupported "unreachable")
   else .obj fields defaults (some (schemaRequired c.required (defaults.map (·.1)))) c.addl
 
@@ -214,7 +212,7 @@ def toSchemaF : FieldDecl → Schema
   | .mapOf k v sz =>
     if plainStringKey k then .mapOf (toSchemaF v) sz.min sz.max else .unsupported "patternProperties"
   | .struct c fields defaults =>
-    if c.inline then structShape true c (toSchemaP fields) defaults else .ref c.name
+    if c.inline then structShape false c (toSchemaP fields) defaults else .ref c.name
   | .anyOf fs => anyOfShape fs (toSchemaL fs)
   | .oneOf fs => .oneOf (toSchemaL fs)
   | .allOf fs => .allOf (toSchemaL fs)
@@ -234,6 +232,11 @@ end
 
 /-- `structure_to_schema cls` -/
 def toSchemaClass : FieldDecl → Schema
+  | .struct c fields defaults => structShape true c (toSchemaP fields) defaults
+  | _ => .unsupported "not a class"
+
+/-- what `_map_class_reference` stores under `definitions[name]` for a referenced class -/
+def toSchemaDef : FieldDecl → Schema
   | .struct c fields defaults => structShape false c (toSchemaP fields) defaults
   | _ => .unsupported "not a class"
 
@@ -251,12 +254,6 @@ def objIssues (names defaultNames : List String) (required : Option (List String
   | some req =>
     (if req.all names.contains && nodupB req then [] else ["required-not-properties"])
     ++ (if defaultNames.all req.contains then [] else ["default-forces-required"])
-    ++ (if collapses (declRequired names defaultNames (some req)) names addl
-        then ["single-field-collapse"] else [])
-    -- `structure_to_schema` appends the defaulted field to `cls._required` in place, so from its
-    -- second call on the same class (a definition referenced twice) the class collapses as well
-    ++ (if !defaultNames.isEmpty && collapses req names addl
-        then ["collapse-after-required-mutation"] else [])
 
 mutual
 /-- reasons why `toSchema (schemaToDecl s)` differs from `s` (empty = in the fragment) -/
@@ -279,7 +276,6 @@ def issues : Schema → List String
   | .anyOf ss => issuesL ss
   | .oneOf ss => issuesL ss
   | .notS ss => issuesL ss
-  | .retyped _ => ["not-a-source-schema"]
   | .unsupported _ => ["not-a-source-schema"]
 termination_by structural s => s
 def issuesL : List Schema → List String
@@ -300,10 +296,19 @@ def inCodeFragmentP (ps : List (String × Schema)) : Bool := (issuesP ps).isEmpt
 /-- top level: additionally the schema must be an object with `properties` (anything else is
     generated as a wrapper class with a single field `wrapped`) -/
 def topIssues : Schema → List String
-  | .obj props defaults required addl => issues (.obj props defaults required addl)
+  | .obj props defaults required addl =>
+    -- the field-wrapper form exists for the top-level class only
+    (if collapses (declRequired (props.map (·.1)) (defaults.map (·.1)) required) (props.map (·.1)) addl
+     then ["single-field-collapse"] else [])
+    ++ issues (.obj props defaults required addl)
   | .mapAny a mn mx => "top-level-map-ignored" :: issues (.mapAny a mn mx)
   | .mapOf v mn mx => "top-level-map-ignored" :: issues (.mapOf v mn mx)
   | s => "top-level-wrapped" :: issues s
+
+/-- a definition (mapped back through `_map_class_reference`: never the field-wrapper form) -/
+def defIssues : Schema → List String
+  | .obj props defaults required addl => issues (.obj props defaults required addl)
+  | s => topIssues s
 
 /-! ### `required` order: the comparison is up to the order of every `required` list -/
 
@@ -324,7 +329,6 @@ def normReq : Schema → Schema
   | .anyOf ss => .anyOf (normReqL ss)
   | .oneOf ss => .oneOf (normReqL ss)
   | .notS ss => .notS (normReqL ss)
-  | .retyped s => .retyped (normReq s)
   | .num i m a b e => .num i m a b e
   | .str a b p => .str a b p
   | .bool => .bool
